@@ -716,6 +716,21 @@ def round_env(run, tree):
     return env
 
 
+def plain_run(spec, kind="callable"):
+    """untraced run of a spec by stepping (used by twin-run checks); returns the final snapshot"""
+    import pyhms.tree as T
+    from pyhms.config import TreeConfig
+
+    o = build(spec, None, plain=kind)
+    opts = {"random_seed": spec["seed"], "hibernation": spec["hibernation"]}
+    tree = T.DemeTree(TreeConfig(o["levels"], o["gsc"], o["sm"], options=opts, config_class_to_deme_class=o["custom"]))
+    steps = 0
+    while not tree._gsc(tree) and steps < spec["max_steps"]:
+        tree.run_step()
+        steps += 1
+    return snap_tree(tree, [])
+
+
 def run_spec(spec, **kw):
     return Run(copy.deepcopy(spec)).execute(**kw)
 
